@@ -219,6 +219,22 @@ def curved_cases(ck):
                             return
     rect = lambda x0, x1, y0, y1, o=0j: sp.Path(sp.Line(complex(x0, y0) + o, complex(x1, y0) + o), sp.Line(complex(x1, y0) + o, complex(x1, y1) + o),      # noqa
                                              sp.Line(complex(x1, y1) + o, complex(x0, y1) + o), sp.Line(complex(x0, y1) + o, complex(x0, y0) + o))
+    # self-crossing outlines whose lobes have opposite orientation (net signed area 0 or small): containment is about crossings and enclosure, not about areas
+    bow = sp.polygon(0j, 10 + 10j, 10 + 0j, 0 + 10j)
+    lob = sp.polygon(0j, 10 + 10j, 10 + 0j, 0 + 6j)
+    for oname, outer in (('bow-tie', bow), ('unequal bow-tie', lob)):
+        for verts, exp in (((7 + 4j, 9 + 5j, 7 + 6j), True), ((1 + 4j, 3 + 5j, 1 + 5.5j), oname == 'bow-tie' or True), ((4 + 1j, 6 + 1j, 5 + 2j), False), ((7 + 4j, 12 + 5j, 7 + 6j), False)):
+            inner = sp.polygon(*verts)
+            if oname == 'unequal bow-tie' and verts[0] == 1 + 4j:
+                inner = sp.polygon(0.5 + 3j, 1.5 + 3.2j, 0.7 + 4j)
+            ck.case(fp=('bowtie-containment', oname, str(verts)), nontrivial=True)
+            try:
+                got = inner.is_contained_by(outer)
+            except Exception as e:      # noqa
+                got = e
+            if got is not exp and got != exp:
+                ck.disagree(key='is_contained_by/self-crossing-outer-path', site=site, what='triangle %s in the %s %r: is_contained_by = %r, exact %r' % (verts, oname, outer, got, exp),
+                            case={'outer': oname, 'tri': [str(v) for v in verts]}, expected=exp, observed=repr(got), driver='curved')
     for o in (0j, 40 - 25j):
         circle = sp.Path(sp.Arc(5 + o, 5 + 5j, 0, False, True, -5 + o), sp.Arc(-5 + o, 5 + 5j, 0, False, True, 5 + o))
         dshape = sp.Path(sp.CubicBezier(0j + o, 6 + o, 6 + 6j + o, 6j + o), sp.Line(6j + o, 0j + o))
